@@ -96,3 +96,5 @@ func Mix(base uint64, label string, i uint64) uint64 {
 	r.U64()
 	return r.U64()
 }
+
+func (r *Rng) PickAny(xs []interface{}) interface{} { return xs[r.Intn(len(xs))] }
